@@ -162,6 +162,8 @@ func cU64(rc *h.Rng) uint64 {
 	return rc.U64() >> uint(rc.Intn(64))
 }
 
+var codecSeenKeys [][]byte
+
 func genTxParams(rc *h.Rng) *txParams {
 	p := &txParams{kind: rc.Intn(3), loc: common.Location{byte(rc.Intn(3)), byte(rc.Intn(3))}}
 	p.key, _ = crypto.ToECDSA(crypto.Keccak256(rc.Bytes(16)))
@@ -186,7 +188,26 @@ func genTxParams(rc *h.Rng) *txParams {
 	p.oth, p.idx, p.sender, p.etxType = cHash(rc), uint16(cU64(rc)), cAddr(rc, p.loc), uint64(rc.Intn(6))
 	for i := 1 + rc.Intn(3); i > 0; i-- {
 		k, _ := btcec.NewPrivateKey()
-		p.ins = append(p.ins, types.TxIn{PreviousOutPoint: types.OutPoint{TxHash: cHash(rc), Index: uint16(rc.U64())}, PubKey: k.PubKey().SerializeUncompressed()})
+		pub := k.PubKey().SerializeUncompressed()
+		if rc.Chance(35) {
+			// keys seen before in this process, and their negations (same X coordinate, the other Y): what a decoder
+			// remembers about one key must not leak into another
+			if len(codecSeenKeys) > 0 && rc.Bool() {
+				pub = codecSeenKeys[rc.Intn(len(codecSeenKeys))]
+			}
+			if rc.Bool() {
+				if pk, err := btcec.ParsePubKey(pub); err == nil {
+					var neg btcec.JacobianPoint
+					pk.AsJacobian(&neg)
+					neg.Y.Negate(1).Normalize()
+					pub = btcec.NewPublicKey(&neg.X, &neg.Y).SerializeUncompressed()
+				}
+			}
+		}
+		if len(codecSeenKeys) < 64 {
+			codecSeenKeys = append(codecSeenKeys, pub)
+		}
+		p.ins = append(p.ins, types.TxIn{PreviousOutPoint: types.OutPoint{TxHash: cHash(rc), Index: uint16(rc.U64())}, PubKey: pub})
 	}
 	for i := rc.Intn(4); i > 0; i-- {
 		// (a nil Lock is legal for ProtoEncode but Transaction.MarshalJSON dereferences it; objects that
@@ -602,7 +623,11 @@ func runCodec(seed uint64, n int, outDir string, replay string) {
 					o.Violate("codec-panic", fmt.Sprintf("panic: %v at %s", p, stackTop()))
 				}
 			}()
-			switch rc.Intn(13) {
+			switch rc.Intn(15) {
+			case 13:
+				codecReceipts(o, rc, ans)
+			case 14:
+				codecRollup(o, rc, ans)
 			case 10:
 				codecBlock(o, rc, ans)
 			case 11:
